@@ -1,2 +1,289 @@
+//! C12 (async rewrite, Send, async_trait) and C03 (signature conversion keeps the call type).
+use super::c_assemble::{impl_methods, trait_methods};
 use super::*;
-pub fn contracts() -> Vec<Contract> { vec![] }
+
+pub fn contracts() -> Vec<Contract> {
+    vec![
+        Contract { name: "c12_async_signature", function: "trait_codegen.rs::make_trait_fn_sig, sub_attributes.rs::{analyze_sub_attributes, contains_async_trait}, opt.rs::EntraitOpt::parse (?Send), entrait_trait/mod.rs::gen_impl_delegation_trait_defs", props: &["C12", "C14"], run: c12 },
+        Contract { name: "c03_signature_conversion", function: "signature/converter.rs::SignatureConverter::convert_fn_to_trait_fn, analyze_generics.rs::{deps_with_generics, find_deps_generic_bounds}", props: &["C03", "C01"], run: c03 },
+    ]
+}
+
+/// every trait in the expansion (top level and inside modules)
+fn all_traits(items: &[syn::Item]) -> Vec<&syn::ItemTrait> {
+    let mut v = vec![];
+    for it in items {
+        match it {
+            syn::Item::Trait(t) => v.push(t),
+            syn::Item::Mod(m) => {
+                if let Some((_, inner)) = &m.content {
+                    v.extend(all_traits(inner));
+                }
+            }
+            _ => {}
+        }
+    }
+    v
+}
+
+fn all_impls(items: &[syn::Item]) -> Vec<&syn::ItemImpl> {
+    let mut v = vec![];
+    for it in items {
+        match it {
+            syn::Item::Impl(t) => v.push(t),
+            syn::Item::Mod(m) => {
+                if let Some((_, inner)) = &m.content {
+                    v.extend(all_impls(inner));
+                }
+            }
+            _ => {}
+        }
+    }
+    v
+}
+
+fn c12(_ctx: &Ctx, r: &mut Report) {
+    r.domain = "async fn / mod / trait (plain, static and dynamic delegation target) inputs x return types {none, i32, &str, Result<T, E>, &'a T} x {default, ?Send} x async_trait {absent, #[async_trait], #[async_trait::async_trait], #[async_trait(?Send)]}".into();
+    r.bound = "exhaustive".into();
+    let rets: [(&str, &str); 5] = [("", "()"), ("-> i32", "i32"), ("-> &str", "& str"), ("-> Result<T, E>", "Result < T , E >"), ("-> &'a T", "& 'a T")];
+    let ats: [&str; 4] = ["", "#[async_trait]", "#[async_trait::async_trait]", "#[async_trait(?Send)]"];
+    #[derive(Clone, Copy, Debug, PartialEq)]
+    enum Kind {
+        Fn,
+        Mod,
+        Trait,
+        TraitStatic,
+        TraitDyn,
+    }
+    for kind in [Kind::Fn, Kind::Mod, Kind::Trait, Kind::TraitStatic, Kind::TraitDyn] {
+        for (ret, want_out) in rets {
+            for maybe_send in [false, true] {
+                for at in ats {
+                    let lt = if ret.contains("'a") { "<'a>" } else { "" };
+                    let (attr, item, checked): (String, String, Vec<&str>) = match kind {
+                        Kind::Fn => (format!("Tr{}", if maybe_send { ", ?Send" } else { "" }), format!("{} async fn f{}(deps: &impl Any, a: i32) {} {{ todo!() }}", at, lt, ret), vec!["Tr"]),
+                        Kind::Mod => (format!("Tr{}", if maybe_send { ", ?Send" } else { "" }), format!("{} mod m {{ pub async fn f{}(deps: &impl Any, a: i32) {} {{ todo!() }} pub fn s(deps: &impl Any) {{}} }}", at, lt, ret), vec!["Tr"]),
+                        Kind::Trait => (if maybe_send { "?Send".into() } else { "".into() }, format!("{} trait Tr {{ async fn f{}(&self, a: i32) {}; fn s(&self); }}", at, lt, ret), vec!["Tr"]),
+                        Kind::TraitStatic => (format!("TrImpl, delegate_by = DelegateTr{}", if maybe_send { ", ?Send" } else { "" }), format!("{} trait Tr {{ async fn f{}(&self, a: i32) {}; fn s(&self); }}", at, lt, ret), vec!["Tr", "TrImpl"]),
+                        Kind::TraitDyn => (format!("TrImpl, delegate_by = ref{}", if maybe_send { ", ?Send" } else { "" }), format!("{} trait Tr {{ async fn f{}(&self, a: i32) {}; fn s(&self); }}", at, lt, ret), vec!["Tr", "TrImpl"]),
+                    };
+                    let input = format!("#[entrait({})] {}", attr, item);
+                    r.guarded(&input, |r| {
+                        let out = expand(Variant::Entrait, &attr, &item);
+                        if let Some(e) = compile_error_of(&out) {
+                            r.fail("unexpected-error", &input, e);
+                            return;
+                        }
+                        let file = match parse_file(&out) {
+                            Ok(f) => f,
+                            Err(e) => {
+                                r.fail("unparsable", &input, e);
+                                return;
+                            }
+                        };
+                        let traits = all_traits(&file.items);
+                        for name in &checked {
+                            let t = match traits.iter().find(|t| t.ident == name) {
+                                Some(t) => *t,
+                                None => {
+                                    r.fail("no-trait", &input, format!("trait {} not found", name));
+                                    continue;
+                                }
+                            };
+                            let has_at = t.attrs.iter().filter(|a| a.path().segments.last().map(|s| s.ident == "async_trait").unwrap_or(false)).count();
+                            let m = match trait_methods(t).into_iter().find(|m| m.sig.ident == "f") {
+                                Some(m) => m,
+                                None => {
+                                    r.fail("no-method", &input, format!("{}::f not found", name));
+                                    continue;
+                                }
+                            };
+                            if !at.is_empty() {
+                                // async_trait below entrait: `async fn` kept, attribute re-applied
+                                if m.sig.asyncness.is_none() {
+                                    r.fail("async-trait-not-honoured", &input, format!("{}::f was desugared although an async_trait attribute is present", name));
+                                }
+                                if has_at == 0 {
+                                    r.fail("async-trait-not-reapplied", &input, format!("async_trait attribute is missing on trait {}", name));
+                                }
+                                let out_ty = match &m.sig.output {
+                                    syn::ReturnType::Default => "()".to_string(),
+                                    syn::ReturnType::Type(_, t) => tt_string(t.as_ref()),
+                                };
+                                if out_ty != want_out {
+                                    r.fail("return-type", &input, format!("{}::f returns `{}`, declared `{}`", name, out_ty, want_out));
+                                }
+                            } else {
+                                if m.sig.asyncness.is_some() {
+                                    r.fail("still-async", &input, format!("{}::f is still `async fn`", name));
+                                    continue;
+                                }
+                                let got = match &m.sig.output {
+                                    syn::ReturnType::Type(_, t) => tt_string(t.as_ref()),
+                                    _ => String::new(),
+                                };
+                                let want = format!("impl :: core :: future :: Future < Output = {} >{}", want_out, if maybe_send { "" } else { " + :: core :: marker :: Send" });
+                                if got != want {
+                                    r.fail(if got.contains("Send") != want.contains("Send") { "send-bound" } else { "future-output" }, &input, format!("{}::f returns `{}`, expected `{}`", name, got, want));
+                                }
+                            }
+                        }
+                        // with async_trait the generated implementations carry it as well
+                        if !at.is_empty() {
+                            for im in all_impls(&file.items) {
+                                if im.trait_.is_none() {
+                                    continue;
+                                }
+                                let n = im.attrs.iter().filter(|a| a.path().segments.last().map(|s| s.ident == "async_trait").unwrap_or(false)).count();
+                                if n == 0 {
+                                    r.fail("async-trait-not-on-impl", &input, format!("impl of {} lacks the async_trait attribute", im.trait_.as_ref().map(|t| tt_string(&t.1)).unwrap_or_default()));
+                                }
+                            }
+                        }
+                        // delegating bodies await
+                        for im in all_impls(&file.items) {
+                            if im.trait_.is_none() {
+                                continue;
+                            }
+                            for m in impl_methods(im) {
+                                let body = tt_string(&m.block);
+                                let awaited = body.contains(". await");
+                                if (m.sig.ident == "f") != awaited {
+                                    r.fail("await", &input, format!("method {} body `{}`", m.sig.ident, body));
+                                }
+                            }
+                        }
+                    });
+                }
+            }
+        }
+    }
+}
+
+fn c03(_ctx: &Ctx, r: &mut Report) {
+    r.domain = "fn inputs: generic parameter lists up to length 3 over {deps D (bounded or not), T: Clone, U, 'a, 'b, const N: usize} x where clauses {none, T: Copy, D: A, U: 'a} x parameter / return types mentioning them x deps {&D, D, &'a D, &impl A} x {sync, async}".into();
+    r.bound = "exhaustive over the listed alphabets".into();
+    let generic_sets: [(&str, &[&str], &[&str]); 9] = [
+        ("<D>", &[], &[]),
+        ("<D, T: Clone>", &["T : Clone"], &[]),
+        ("<T: Clone, D>", &["T : Clone"], &[]),
+        ("<'a, D>", &[], &["'a"]),
+        ("<'a, 'b, D, T>", &["T"], &["'a", "'b"]),
+        ("<D, T, U>", &["T", "U"], &[]),
+        ("<D: A, T>", &["T"], &[]),
+        ("<'a, D, T: 'a>", &["T : 'a"], &["'a"]),
+        ("<D, const N: usize>", &["const N : usize"], &[]),
+    ];
+    let wheres: [(&str, &[&str]); 4] = [("", &[]), ("where T: Copy", &["T : Copy"]), ("where D: A", &[]), ("where D: A, T: Copy + Send", &["T : Copy + Send"])];
+    for (g, lifted, lifetimes) in generic_sets {
+        for (w, lifted_preds) in wheres {
+            if w.contains('T') && !g.contains('T') {
+                continue;
+            }
+            for deps in ["&D", "D"] {
+                for is_async in [false, true] {
+                    let a_ty = if g.contains("'a") { "&'a str" } else { "String" };
+                    let b_ty = if g.contains('T') { "T" } else { "u8" };
+                    let c_ty = if g.contains("const N") { "[u8; N]" } else { "i64" };
+                    let ret = if g.contains("'a") { "&'a str" } else if g.contains('T') { "Option<T>" } else { "i32" };
+                    let item = format!("{} fn f{}(deps: {}, a: {}, b: {}, c: {}) -> {} {} {{ todo!() }}", if is_async { "async" } else { "" }, g, deps, a_ty, b_ty, c_ty, ret, w);
+                    let input = format!("#[entrait(Tr)] {}", item);
+                    r.guarded(&input, |r| {
+                        let out = expand(Variant::Entrait, "Tr", &item);
+                        if let Some(e) = compile_error_of(&out) {
+                            r.fail("unexpected-error", &input, e);
+                            return;
+                        }
+                        let file = match parse_file(&out) {
+                            Ok(f) => f,
+                            Err(e) => {
+                                r.fail("unparsable", &input, e);
+                                return;
+                            }
+                        };
+                        let t = match find_trait(&file.items, "Tr") {
+                            Some(t) => t,
+                            None => {
+                                r.fail("no-trait", &input, "trait not found".into());
+                                return;
+                            }
+                        };
+                        // trait generics: exactly the non-deps type / const parameters, in order
+                        let tg: Vec<String> = t.generics.params.iter().map(|p| tt_string(p)).collect();
+                        let want_tg: Vec<String> = lifted.iter().map(|s| s.to_string()).collect();
+                        if tg != want_tg {
+                            r.fail("trait-generics", &input, format!("trait generics [{}], expected [{}]", tg.join(", "), want_tg.join(", ")));
+                        }
+                        let tw: Vec<String> = t.generics.where_clause.as_ref().map(|w| w.predicates.iter().map(|p| tt_string(p)).collect()).unwrap_or_default();
+                        let want_tw: Vec<String> = lifted_preds.iter().map(|s| s.to_string()).collect();
+                        let im = find_impls(&file.items, "Tr");
+                        let mut sigs: Vec<&syn::Signature> = trait_methods(t).iter().map(|m| &m.sig).collect();
+                        if let Some(i) = im.first() {
+                            sigs.extend(impl_methods(i).iter().map(|m| &m.sig));
+                        }
+                        for (k, sig) in sigs.iter().enumerate() {
+                            let what = if k == 0 { "trait method" } else { "impl method" };
+                            // every non-deps where-predicate survives, on the trait or on the method; no deps predicate remains
+                            let mw: Vec<String> = sig.generics.where_clause.as_ref().map(|w| w.predicates.iter().map(|p| tt_string(p)).collect()).unwrap_or_default();
+                            for p in &want_tw {
+                                if !tw.contains(p) && !mw.contains(p) {
+                                    r.fail("predicate-dropped", &input, format!("where-predicate `{}` is on neither the trait nor the {}", p, what));
+                                }
+                            }
+                            for p in tw.iter().chain(mw.iter()) {
+                                if p.starts_with("D :") {
+                                    r.fail("deps-predicate-left", &input, format!("predicate `{}` on the removed deps parameter survives", p));
+                                } else if !want_tw.contains(p) {
+                                    r.fail("predicate-added", &input, format!("where-predicate `{}` was not written by the user", p));
+                                }
+                            }
+                            // a generic parameter must not be declared both on the trait/impl and on the method
+                            for p in &sig.generics.params {
+                                let name = match p {
+                                    syn::GenericParam::Type(t) => t.ident.to_string(),
+                                    syn::GenericParam::Const(c) => c.ident.to_string(),
+                                    syn::GenericParam::Lifetime(l) => l.lifetime.to_string(),
+                                };
+                                if t.generics.params.iter().any(|q| match q {
+                                    syn::GenericParam::Type(t) => t.ident == name,
+                                    syn::GenericParam::Const(c) => c.ident == name,
+                                    _ => false,
+                                }) {
+                                    r.fail("generic-declared-twice", &input, format!("`{}` is declared on the trait and again on the {}", name, what));
+                                }
+                            }
+                            let lts: Vec<String> = sig.generics.params.iter().filter_map(|p| if let syn::GenericParam::Lifetime(l) = p { Some(l.lifetime.to_string()) } else { None }).collect();
+                            let want_lts: Vec<String> = lifetimes.iter().map(|s| s.to_string()).collect();
+                            if lts != want_lts {
+                                r.fail("method-lifetimes", &input, format!("{} lifetimes {:?}, expected {:?}", what, lts, want_lts));
+                            }
+                            let tys: Vec<String> = sig.inputs.iter().filter_map(|a| if let syn::FnArg::Typed(p) = a { Some(tt_string(p.ty.as_ref())) } else { None }).collect();
+                            let want_tys: Vec<String> = [a_ty, b_ty, c_ty].iter().map(|s| tt_string(&syn::parse_str::<syn::Type>(s).unwrap())).collect();
+                            if tys != want_tys {
+                                r.fail("parameter-types", &input, format!("{} parameter types {:?}, the function's {:?}", what, tys, want_tys));
+                            }
+                            match sig.inputs.first() {
+                                Some(syn::FnArg::Receiver(rc)) => {
+                                    if rc.reference.is_some() != deps.starts_with('&') || rc.mutability.is_some() {
+                                        r.fail("receiver", &input, format!("{} receiver `{}` for deps `{}`", what, tt_string(rc), deps));
+                                    }
+                                }
+                                _ => r.fail("receiver", &input, format!("{} has no receiver", what)),
+                            }
+                            // return type (k == 0 async is rewritten to impl Future, checked by C12)
+                            let rt = match &sig.output {
+                                syn::ReturnType::Type(_, t) => tt_string(t.as_ref()),
+                                _ => "()".into(),
+                            };
+                            let want_rt = tt_string(&syn::parse_str::<syn::Type>(ret).unwrap());
+                            let ok = if is_async && k == 0 { rt.contains(&format!("Output = {}", want_rt)) } else { rt == want_rt };
+                            if !ok {
+                                r.fail("return-type", &input, format!("{} returns `{}`, the function `{}`", what, rt, want_rt));
+                            }
+                        }
+                    });
+                }
+            }
+        }
+    }
+}
